@@ -144,7 +144,12 @@ pub fn run(src: &str) -> Value {
                     syn::Expr::Assign(a) if a.attrs.is_empty() => plain_ident(&a.left),
                     _ => None,
                 };
+                let assign_rhs_ident = match &e {
+                    syn::Expr::Assign(a) if a.attrs.is_empty() => plain_ident(&a.right).is_some(),
+                    _ => false,
+                };
                 v.push(json!({
+                    "assign_rhs_ident": assign_rhs_ident,
                     "start": start,
                     "end": end,
                     "kind": kind(&e),
